@@ -142,6 +142,7 @@ type State struct {
 	dead       bool
 	nEvents    int
 	callCounts map[string]int
+	callSyms   map[string]Term // callee name -> symbolic number of calls made in loop iterations already cut away (ncalls = count + symbol)
 	meta       map[string]Val
 	retHeaps   map[string]map[string]Term // callee name -> heap when its most recent call returned (spec: after("pat", e))
 	seenRefs   []Term                     // references observed so far on this path (a later allocation differs from all of them)
@@ -165,6 +166,12 @@ func (s *State) clone() *State {
 	n.callCounts = make(map[string]int, len(s.callCounts))
 	for k, v := range s.callCounts {
 		n.callCounts[k] = v
+	}
+	if s.callSyms != nil {
+		n.callSyms = make(map[string]Term, len(s.callSyms))
+		for k, v := range s.callSyms {
+			n.callSyms[k] = v
+		}
 	}
 	if s.retHeaps != nil {
 		n.retHeaps = make(map[string]map[string]Term, len(s.retHeaps))
